@@ -91,6 +91,12 @@ def gen_case(rng, name, rel):
   if rel == 'orthogonal' and rng.random() < 0.5:
     d = int(rng.integers(4, 7))
   tr = gen.training(rng, name, d=d, sep=2.5)
+  if name == 'LFDA' and rng.random() < 0.4:
+    # a class with a SINGLE member (any class layout is in the quantifier)
+    y0 = np.asarray(tr['y'])
+    c = int(rng.choice(np.unique(y0)))
+    keep = np.setdiff1d(np.arange(len(y0)), np.flatnonzero(y0 == c)[1:])
+    tr = gen.training(rng, name, X=tr['X'][keep], y=y0[keep])
   X = tr['X']
   ncls = len(set(tr['y'].tolist()))
   if name == 'RCA_Supervised':
@@ -98,7 +104,7 @@ def gen_case(rng, name, rel):
   o, opt = options_for(rng, name, rel, d, ncls)
   if name == 'RCA_Supervised':
     o['n_chunks'] = min(o.get('n_chunks', 6), int(sum(c // o.get('chunk_size', 2) for c in np.bincount(tr['y']))))
-  T = {'t': np.round(rng.normal(size=d) * 16.0) / 4.0, 'Q': rand_Q(rng, d), 'c': float(rng.choice([0.5, 2.0, 3.0, 0.75, 5.0])),
+  T = {'t': np.round(rng.normal(size=d) * 16.0) / 4.0, 'Q': rand_Q(rng, d), 'c': float(rng.choice([0.5, 2.0, 3.0, 0.75, 5.0, 2.0 ** -16, 2.0 ** -21, 2.0 ** 13])),
        'perm': rng.permutation(len(X))}
   ev = {'ev': 'GeoCase', 'est': name, 'rel': rel, 'opt': opt, 'exc': '', 'd0': [], 'd1': [], 'c': dy(T['c']),
         'Q': dym(T['Q']) if rel == 'orthogonal' else [], 'M0': [], 'M1': [], 'dim': d}
